@@ -108,8 +108,15 @@ def assignable_fields(fmt):
     return _ASSIGNABLE[fmt.name]
 
 
+# writers of another format that accept the entry type (FASTQ reads to FASTA, wide BED rows to .bed, ...): used by the
+# lazy/eager twin only (there is no row model of the converted bytes; the two modes must agree with each other)
+# Only conversions between the sequence formats are meaningful (reads with qualities written as FASTA; FASTA written as
+# FASTQ must fail in both modes): a VCF or SAM table handed to a BED or FASTA writer is not a conversion the library offers.
+OTHER_TARGETS = {"fastq": [".fa", ".fasta"], "fasta2": [".fq"]}
+
+
 def gen_program(ctx, fd, n_chunks_rows, max_ops, allow_replace=True, allow_write=True, formats_no_replace=(),
-                allow_item=True):
+                allow_item=True, allow_other_target=False):
     """ops over the variables; n_chunks_rows = rows per initial chunk (model side knows the chunking)"""
     tape = ctx.tape
     fmt = T.FORMATS[fd["format"]]
@@ -159,6 +166,9 @@ def gen_program(ctx, fd, n_chunks_rows, max_ops, allow_replace=True, allow_write
                 ops.append({"op": "len", "src": src})
             else:
                 ops.append({"op": "item", "src": src, "i": tape.draw(n, "op.i")})
+        elif op == "write" and allow_other_target and fmt.name in OTHER_TARGETS and tape.boolean("op.other_target", 1, 3):
+            tg = OTHER_TARGETS[fmt.name]
+            ops.append({"op": "write", "src": src, "target": tg[tape.draw(len(tg), "op.target")]})
         else:
             ops.append({"op": op, "src": src})
     return ops
@@ -259,13 +269,14 @@ class World:
         self.chunk_rows = [len(v) for v in self.vars]
         return None
 
-    def write_bytes(self, v):
-        """bytes produced by writer.write(v) on a fresh target"""
+    def write_bytes(self, v, target=None):
+        """bytes produced by writer.write(v) on a fresh target (target: suffix of another format, written with the
+        writer the library chooses for it)"""
         b = core.bnp()
         fmt = self.f.fmt
         self.n_writes += 1
-        path = f"/sim/{self.out_tag}{self.n_writes}{fmt.suffix}"
-        bt = iosim.resolve(fmt.buffer) if fmt.buffer else None
+        path = f"/sim/{self.out_tag}{self.n_writes}{target or fmt.suffix}"
+        bt = iosim.resolve(fmt.buffer) if (fmt.buffer and not target) else None
 
         def f():
             with b.open(path, "w", buffer_type=bt) as w:
@@ -330,7 +341,7 @@ class World:
         if k == "item":
             return call(lambda: entry_to_plain(src[op["i"]], fmt))
         if k == "write":
-            w = self.write_bytes(src)
+            w = self.write_bytes(src, op.get("target"))
             return w if raised(w) else core.esc(w)
         raise KeyError(k)
 
